@@ -12,11 +12,11 @@ EXTENDS Integers, Sequences, FiniteSets, TLC, Json
 CONSTANTS Tier, Emit
 
 ProfileClasses == {"plain", "buildid0", "buildid1", "buildid2", "buildid3", "emptynames", "hugeids", "emptylabelkey", "edgeaddresses",
-                   "nomappings", "nosamples", "negativevalues", "nofunctions", "nilmapping", "weirdstrings", "zerovalues"}
+                   "nomappings", "nosamples", "negativevalues", "nofunctions", "nilmapping", "weirdstrings", "zerovalues", "extremevalues"}
 Commands == {"top", "tree", "dot", "tags", "traces", "raw", "callgrind", "list", "disasm", "weblist", "peek", "proto", "topproto", "svg", "comments", "text"}
 RegexFlags == {"focus", "ignore", "hide", "show", "show_from", "tagshow", "taghide", "prune_from", "tagroot", "tagleaf"}
 RegexVals == {"f", "(", "", ".*", "[", "a**", "\\", "(?i)F", "f|", "^$"}
-TagVals == {"k", "1:", ":1", "1mb:2gb", "99999999999999999999", "1:99999999999999999999", "1xyz:2", "-5:", "1:2:3", "bytes=1:2", "=:", "k=", "=x", "1mb:2s", "0:0", ","}
+TagVals == {"k", "-9223372036854775808:", ":9223372036854775807", "-9223372036854775808", "1:", ":1", "1mb:2gb", "99999999999999999999", "1:99999999999999999999", "1xyz:2", "-5:", "1:2:3", "bytes=1:2", "=:", "k=", "=x", "1mb:2s", "0:0", ","}
 NumFlags == {"nodecount", "nodefraction", "edgefraction", "divide_by"}
 NumVals == {"0", "-1", "-2", "-7", "1", "999999999999", "0.5", "2", "NaN", "1e999", "-0", "1e-300", "Inf", "abc", ""}
 OtherOpts == { <<"sample_index", v>> : v \in {"0", "1", "5", "-1", "s1", "nosuch", ""} }
